@@ -59,7 +59,11 @@ package attachment
 //@   precall WriteFile C19.confined: nosep(name) && name != "" && name != "." && name != ".."
 
 // newStandardJT808DataHandle creates all three message objects; 0x1210 records are created with both maps
-//@ valid *standardJT808DataHandle s: s != nil && s.T0x1210 != nil && s.T0x1211 != nil && s.T0x1212 != nil
+//@ valid *standardJT808DataHandle s: s != nil && s.T0x1210 != nil && s.T0x1211 != nil && s.T0x1212 != nil && (oncedone(s.once) ==> s.head != nil && s.head.Property != nil)
+// the header of the first frame is kept for the replies: after any successfully dispatched frame it is there
+//@ func (*standardJT808DataHandle).Parse
+//@   ensures C10.head: d.head != nil && d.head.Property != nil && oncedone(d.once)
+//@   ensures C10.msg: d.jtMsg == jtMsg
 //@ func (*standardJT808DataHandle).OnPackageProgressEvent
 //@   requires C10.progress: progress != nil && progress.Record != nil
 //@   requires C10.records: forallkey(k, progress.Record, progress.Record[k] != nil)
